@@ -39,20 +39,43 @@ def render (d : DSt) : String :=
   s!"live={s.live.length} made={s.nextInst} mapped={if s.swampMap.isSome then 1 else 0} cur={cur} slots=[{" ".intercalate slots}]" ++
     (if s.live.length > 1 then "\t#F:" ++ finding else "")
 
-/-- the waiter of slot `σ`, if any -/
-def waiterOf (d : DSt) (σ : Nat) : Option Nat :=
-  threads.find? fun t => (d.s.thr t).pc == .waiting && (d.s.thr t).slot == σ
+def wokenOn (d : DSt) (σ : Nat) : List Nat :=
+  threads.filter fun t => (d.s.thr t).pc == .woken && (d.s.thr t).slot == σ
 
-/-- `ready = false; Broadcast()` by `t`, then the woken waiter (if any) enters -/
-def unready (d : DSt) (t : Nat) : DSt × String :=
+/-- After a Broadcast on slot `σ`: every woken thread re-evaluates its loop once.  If the slot is
+    free one of them enters — which one is the runtime's choice: the observed thread `obs` when
+    the model enables it, else the lowest.  The others find `ready` set: a cancelled one gives up
+    (its Broadcast wakes the sleepers again), the rest go back to sleep. -/
+def settleSlot (d : DSt) (σ : Nat) (obs : Option Nat) : DSt × String :=
+  let ws := wokenOn d σ
+  let (d, entered) :=
+    if (d.s.slots σ).owner.isNone then
+      match (match obs with | some e => if ws.contains e then some e else ws.head? | none => ws.head?) with
+      | some e => (act d (.enter e), some e)
+      | none => (d, none)
+    else (d, none)
+  let rec loop (d : DSt) (gave : List Nat) : Nat → DSt × List Nat
+    | 0 => (d, gave)
+    | fuel + 1 =>
+      match (wokenOn d σ).head? with
+      | none => (d, gave)
+      | some y =>
+        if (d.s.slots σ).owner.isSome && d.cancelled y then
+          let d := act d (.giveUp y)
+          let d := if d.cfg.refCounted then act d (.leaveDec y) else d
+          loop d (gave ++ [y]) fuel
+        else loop (act d (.enter y)) gave fuel
+  let (d, gave) := loop d [] 40
+  let gave := gave.mergeSort (· ≤ ·)
+  (d, (match entered with | some e => s!" woke={e}" | none => "") ++
+      (if gave.isEmpty then "" else " gaveup=[" ++ ",".intercalate (gave.map toString) ++ "]"))
+
+/-- `ready = false; Broadcast()` by `t`, then the woken threads settle -/
+def unready (d : DSt) (t : Nat) (obs : Option Nat) : DSt × String :=
   let σ := (d.s.thr t).slot
-  let w := waiterOf d σ
-  let d := act d (.leaveUnready t)
-  match w with
-  | some x => (act d (.enter x), s!" woke={x}")
-  | none => (d, "")
+  settleSlot (act d (.leaveUnready t)) σ obs
 
-def goThread (d : DSt) (t : Nat) : DSt × String :=
+def goThread (d : DSt) (t : Nat) (obs : Option Nat := none) : DSt × String :=
   let x := d.s.thr t
   match x.pc with
   | .idle =>
@@ -60,35 +83,29 @@ def goThread (d : DSt) (t : Nat) : DSt × String :=
     (d, s!"lookup slot={(d.s.thr t).slot}")
   | .looked =>
     let sl := d.s.slots x.slot
-    if sl.owner.isSome && (waiterOf d x.slot).isSome && !d.cancelled t then (d, "busy")
-    else if sl.owner.isSome && d.cancelled t then
-      -- its Broadcast wakes the slot's waiter, which counts itself again and waits again
+    if sl.owner.isSome && d.cancelled t then
+      -- its Broadcast wakes the slot's sleepers, which find `ready` still set
       let d := act d (.giveUp t)
       -- (reference-counted variant: giving up releases the count at once)
       let d := if d.cfg.refCounted then act d (.leaveDec t) else d
-      let d := threads.foldl (fun d y =>
-        if (d.s.thr y).pc == .woken && (d.s.thr y).slot == x.slot then
-          (if d.cancelled y then
-            (let d := act d (.giveUp y); if d.cfg.refCounted then act d (.leaveDec y) else d)
-           else act d (.enter y))
-        else d) d
-      (d, "gaveup")
+      let (d, w) := settleSlot d x.slot obs
+      (d, "gaveup" ++ w)
     else
       let d := act d (.enter t)
       (d, if (d.s.thr t).pc == .inCS then "inside" else "waiting")
   | .inCS =>
     if d.cancelled t then
-      let (d, w) := unready (act d (.bodyCtxDone t)) t
+      let (d, w) := unready (act d (.bodyCtxDone t)) t obs
       (d, "cancelled" ++ w)
     else
       let d := act d (.bodyGet t)
       if (d.s.thr t).pc == .creating then (d, "creating")
       else
-        let (d, w) := unready d t
+        let (d, w) := unready d t obs
         (d, "found" ++ w)
   | .creating =>
     let d := act (act d (.bodyCreate t)) (.bodyStore t)
-    let (d, w) := unready d t
+    let (d, w) := unready d t obs
     (d, "created" ++ w)
   | .left1 =>
     -- after `giveUp` in the reference-counted variant the thread is at `left1` too, but the
@@ -111,13 +128,13 @@ def goThread (d : DSt) (t : Nat) : DSt × String :=
 def stepLine (d : DSt) (line : String) : DSt × String :=
   match words line with
   | "case" :: _ => ({ cfg := d.cfg }, line)
-  | ["go", ts] =>
+  | "go" :: ts :: obs =>
     match ts.toNat? with
     | none => (d, "bad-op")
     | some t =>
       if t < 1 || t > 6 then (d, "bad-op") else
-      let (d', msg) := goThread d t
-      if msg == "skip" || msg == "busy" then (d', msg) else (d', s!"go {t} {msg} {render d'}")
+      let (d', msg) := goThread d t (obs.head?.bind (·.toNat?))
+      if msg == "skip" then (d', msg) else (d', s!"go {t} {msg} {render d'}")
   | ["burst", ns] =>
     match ns.toNat? with
     | none => (d, "skip")
